@@ -83,7 +83,7 @@ func loadProgram(pkgPaths []string) (*Loaded, error) {
 		Dir:        repoDir,
 		Fset:       fset,
 		Overlay:    ov,
-		BuildFlags: []string{"-tags=verif"},
+		BuildFlags: []string{"-tags=verif,math_big_pure_go"},
 		Env:        append(os.Environ(), "GOFLAGS=-mod=mod", "GOPROXY=off", "GOSUMDB=off", "GOTOOLCHAIN=local"),
 	}
 	var pats []string
